@@ -16,7 +16,7 @@ pub fn units(tier: &str, _seed: u64) -> Vec<String> {
         v.push(unit(&[("ka", c), ("loc", "cli"), ("red1", "none")]));
     }
     // source of the factors: file > -l > metadata > nothing; RED1 from option / metadata / both
-    for (loc, red1) in [("meta", "none"), ("none", "none"), ("file+meta", "none"), ("cli+meta", "none"), ("cli", "cli"), ("cli", "meta"), ("cli", "both"), ("meta", "both")] {
+    for (loc, red1) in [("meta", "none"), ("none", "none"), ("file+meta", "none"), ("cli+meta", "none"), ("cli", "cli"), ("cli", "meta"), ("cli", "both"), ("meta", "both"), ("file", "cli"), ("file", "meta"), ("file+meta", "both")] {
         v.push(unit(&[("ka", "----"), ("loc", loc), ("red1", red1)]));
     }
     if tier == "thorough" {
@@ -112,7 +112,7 @@ pub fn scenario(u: &Unit) -> String {
         }
         _ => {}
     }
-    if (red1 == "cli" || red1 == "both") && !loc.starts_with("file") {
+    if red1 == "cli" || red1 == "both" {
         args.push("--red1".into());
         args.push(ftok("r1c_ren"));
         args.push(ftok("r1c_nren"));
@@ -226,6 +226,24 @@ pub fn scenario(u: &Unit) -> String {
         }
         None => ob("oc.written", f()),
     }
+    // the RED1 factor given by option or metadata is recorded, at the three decimals of factors
+    if red1 != "none" {
+        let d = Dom::Range(0.0, 10.0);
+        let want = if red1 == "cli" || red1 == "both" { [input("r1c_ren", d), input("r1c_nren", d), input("r1c_co2", d)] } else { [input("r1m_ren", d), input("r1m_nren", d), input("r1m_co2", d)] };
+        let got: Vec<F> = oc
+            .as_deref()
+            .and_then(|text| text.lines().find(|l| l.starts_with("#META CTE_RED1")))
+            .and_then(|l| l.split_once(':'))
+            .map(|(_, v)| v.split(',').filter_map(|x| x.trim().parse::<F>().ok()).collect())
+            .unwrap_or_default();
+        if got.len() == 3 {
+            for (i, nm) in ["ren", "nren", "co2"].iter().enumerate() {
+                ob(&format!("oc.CTE_RED1.{}", nm), got[i].close_dec(want[i], 3, 1.0));
+            }
+        } else {
+            ob("oc.CTE_RED1.present", f());
+        }
+    }
     // the results are computed with them
     match &json {
         Some(js) => {
@@ -241,7 +259,7 @@ pub fn scenario(u: &Unit) -> String {
             let wf = js.find("\"wfactors\"").map(|i| &js[i..]).unwrap_or("");
             if let Some(i) = wf.find("\"carrier\": \"RED1\"") {
                 let seg = &wf[i..wf.len().min(i + 400)];
-                let want: (F, F, F) = if (red1 == "cli" || red1 == "both") && !loc.starts_with("file") {
+                let want: (F, F, F) = if red1 == "cli" || red1 == "both" {
                     (input("r1c_ren", Dom::Range(0.0, 10.0)), input("r1c_nren", Dom::Range(0.0, 10.0)), input("r1c_co2", Dom::Range(0.0, 10.0)))
                 } else if red1 == "meta" || red1 == "both" {
                     (input("r1m_ren", Dom::Range(0.0, 10.0)), input("r1m_nren", Dom::Range(0.0, 10.0)), input("r1m_co2", Dom::Range(0.0, 10.0)))
